@@ -3,7 +3,7 @@ correspondence each property depends on (aspect-scoped comparison), evidence tex
 
 TRUSTED = [
     "Lean 4.33.0 kernel (re-checked with leanchecker in the thorough tier); axioms allowed: propext, Classical.choice, Quot.sound",
-    "xlate (Go AST -> op lists / tables / frame descriptors / facts): validated by the correspondence run over all types",
+    "xlate (Go AST -> op lists / tables / frame descriptors / facts; shape recognisers, the normalisation rules N1-N5 of xlate/normalise.go, the symbolic executor of xlate/symex.go for bodies the recognisers do not know, path-wise execution of registry and look-up functions): validated by the correspondence run over all types against the regenerated AND the pinned model, and by bin/xlate-selftest",
     "hand-written Lean models of the codec primitives, checksums and registry: validated by correspondence only",
     "Go standard library behaviour (bytes.Buffer, encoding/binary, io.ReadFull, hash/crc32, sync.RWMutex, maps) and the harness's reflection walker",
 ]
